@@ -9,8 +9,11 @@
 // sets (incl. a proper-prefix pair), the same label set repeated in consecutive entries (series split
 // across frames), chunk lists from a menu built from {c1, c1 with Hash set, c2, overlapping c3, aggregated g,
 // g2 sharing g's count sub-chunk, nothing}, every cut of the stream into single-series and Batch frames,
-// duplicates placed in every store, and stores that can / cannot strip the replica label "r" (whose removal
-// reorders their series). Every case is run under a set of configurations (eager | lazy with buffer 1..3) x
+// duplicates placed in every store, and stores that can / cannot strip the replica label(s) of the request. The
+// replica label name is taken from every position relative to the other label names ("r" before, "xz" between,
+// "z" after them; also "r" and "z" together): removal of a leading replica label reorders series only when its
+// values differ, removal of a trailing one reorders them even when every series carries the same value (a label
+// set that ends where another continues meets the replica label earlier). Every case is run under a set of configurations (eager | lazy with buffer 1..3) x
 // (ResponseBatchSize 0..3) and every configuration is compared with the same reference.
 //
 // Oracle = the statement: flattened response strictly increasing by labels (sorted, each label set once),
@@ -42,8 +45,9 @@ import (
 
 type Case struct {
 	Stores []StoreSpec `json:"stores"`
-	WRL    bool        `json:"wrl"` // request WithoutReplicaLabels=["r"]
-	CS     string      `json:"cs"`  // configuration set to run the case under
+	WRL    bool        `json:"wrl"`          // request WithoutReplicaLabels (= RL, or ["r"] when RL is empty)
+	RL     []string    `json:"rl,omitempty"` // names of the replica labels of the request
+	CS     string      `json:"cs"`           // configuration set to run the case under
 }
 
 type Config struct {
@@ -100,8 +104,9 @@ type streamOpts struct {
 	maxE     int
 	nLabels  int
 	menu     [][]int
-	framings bool // all frame cuts (else: single Series responses only)
-	noWRL    bool // the store cannot strip the replica label: entries carry r in {0,1,2}
+	framings bool     // all frame cuts (else: single Series responses only)
+	noWRL    bool     // the store cannot strip the replica label(s): entries carry each of them with a value in {none,1,2}
+	rl       []string // replica label names (nil = "r"), see ReplicaNames in rig_test.go
 }
 
 // streams lists every scripted store for the options: every non-decreasing (in labels.Compare order of
@@ -111,7 +116,11 @@ func streams(o streamOpts) []StoreSpec {
 	var alpha []lr
 	for l := 0; l < o.nLabels; l++ {
 		if o.noWRL {
-			for r := 0; r <= 2; r++ {
+			nr := 3
+			for i := 1; i < len(o.rl); i++ {
+				nr *= 3
+			}
+			for r := 0; r < nr; r++ {
 				alpha = append(alpha, lr{l, r})
 			}
 		} else {
@@ -119,7 +128,7 @@ func streams(o streamOpts) []StoreSpec {
 		}
 	}
 	sort.Slice(alpha, func(i, j int) bool {
-		return labels.Compare(lset(alpha[i].l, alpha[i].r), lset(alpha[j].l, alpha[j].r)) < 0
+		return labels.Compare(lsetN(alpha[i].l, alpha[i].r, o.rl), lsetN(alpha[j].l, alpha[j].r, o.rl)) < 0
 	})
 	var out []StoreSpec
 	for n := 0; n <= o.maxE; n++ {
@@ -134,7 +143,11 @@ func streams(o streamOpts) []StoreSpec {
 					es = append(es, Entry{L: alpha[seq[i]].l, R: alpha[seq[i]].r, C: o.menu[ms[i]]})
 				}
 				for _, f := range fr {
-					out = append(out, StoreSpec{E: es, F: f, NoWRL: o.noWRL})
+					sp := StoreSpec{E: es, F: f, NoWRL: o.noWRL}
+					if o.noWRL {
+						sp.RL = o.rl
+					}
+					out = append(out, sp)
 				}
 			}
 		}
@@ -148,6 +161,7 @@ type block struct {
 	wrl  bool
 	cs   string
 	opts []streamOpts // alternatives per store (union)
+	rl   []string     // replica label names of the request (nil = "r")
 }
 
 var (
@@ -163,37 +177,51 @@ func blocks(thorough bool) []block {
 	so := func(maxE, nl int, menu [][]int, fr bool) []streamOpts {
 		return []streamOpts{{maxE: maxE, nLabels: nl, menu: menu, framings: fr}}
 	}
-	rep := func(maxE int) []streamOpts {
-		return []streamOpts{{maxE: maxE, nLabels: 3, menu: menuR}, {maxE: maxE, nLabels: 3, menu: menuR, noWRL: true}}
+	// replica block: every store either strips the replica label(s) rl itself or cannot.
+	rep := func(name string, k int, cs string, maxE int, menu [][]int, rl ...string) block {
+		return block{name, k, true, cs, []streamOpts{{maxE: maxE, nLabels: 3, menu: menu}, {maxE: maxE, nLabels: 3, menu: menu, noWRL: true, rl: rl}}, rl}
 	}
 	if !thorough {
 		return []block{
-			{"content-1", 1, false, "A6", so(3, 3, menu7, false)},
-			{"content-2", 2, false, "A", so(2, 3, menu7, false)},
-			{"content-3", 3, false, "A", so(1, 3, menu7, false)},
-			{"content-4", 4, false, "A", so(1, 2, menu3, false)},
-			{"content-5", 5, false, "A", so(1, 2, menu3, false)},
-			{"framing-1", 1, false, "B16", so(4, 3, menuU, true)},
-			{"framing-2", 2, false, "B12", so(3, 3, menuU, true)},
-			{"framing-3", 3, false, "B12", so(2, 2, menuU, true)},
-			{"replica-1", 1, true, "A6", rep(3)},
-			{"replica-2", 2, true, "A", rep(2)},
+			{"content-1", 1, false, "A6", so(3, 3, menu7, false), nil},
+			{"content-2", 2, false, "A", so(2, 3, menu7, false), nil},
+			{"content-3", 3, false, "A", so(1, 3, menu7, false), nil},
+			{"content-4", 4, false, "A", so(1, 2, menu3, false), nil},
+			{"content-5", 5, false, "A", so(1, 2, menu3, false), nil},
+			{"framing-1", 1, false, "B16", so(4, 3, menuU, true), nil},
+			{"framing-2", 2, false, "B12", so(3, 3, menuU, true), nil},
+			{"framing-3", 3, false, "B12", so(2, 2, menuU, true), nil},
+			rep("replica-1", 1, "A6", 3, menuR),
+			rep("replica-1/xz", 1, "A6", 3, menuR, "xz"),
+			rep("replica-1/z", 1, "A6", 3, menuR, "z"),
+			rep("replica-1/r+z", 1, "A6", 2, menuR, "r", "z"),
+			rep("replica-2", 2, "A", 2, menuR),
+			rep("replica-2/z", 2, "A", 2, menuR, "z"),
+			rep("replica-2/r+z", 2, "A", 1, menuR, "r", "z"),
 		}
 	}
 	return []block{
-		{"content-1", 1, false, "B16", so(4, 3, menu7, false)},
-		{"content-2", 2, false, "A", so(3, 3, menu5, false)},
-		{"content-2w", 2, false, "A6", so(2, 3, menu7, false)},
-		{"content-3", 3, false, "A", so(2, 3, menu4, false)},
-		{"content-4", 4, false, "A", so(1, 3, menu4, false)},
-		{"content-5", 5, false, "A", so(1, 3, menu3, false)},
-		{"framing-1", 1, false, "B16", so(5, 3, menuU, true)},
-		{"framing-2", 2, false, "B16", so(4, 3, menuU, true)},
-		{"framing-3", 3, false, "B16", so(2, 3, menuU, true)},
-		{"framing-4", 4, false, "B12", so(1, 3, menuU, true)},
-		{"replica-1", 1, true, "B12", rep(4)},
-		{"replica-2", 2, true, "A", rep(3)},
-		{"replica-3", 3, true, "A", rep(1)},
+		{"content-1", 1, false, "B16", so(4, 3, menu7, false), nil},
+		{"content-2", 2, false, "A", so(3, 3, menu5, false), nil},
+		{"content-2w", 2, false, "A6", so(2, 3, menu7, false), nil},
+		{"content-3", 3, false, "A", so(2, 3, menu4, false), nil},
+		{"content-4", 4, false, "A", so(1, 3, menu4, false), nil},
+		{"content-5", 5, false, "A", so(1, 3, menu3, false), nil},
+		{"framing-1", 1, false, "B16", so(5, 3, menuU, true), nil},
+		{"framing-2", 2, false, "B16", so(4, 3, menuU, true), nil},
+		{"framing-3", 3, false, "B16", so(2, 3, menuU, true), nil},
+		{"framing-4", 4, false, "B12", so(1, 3, menuU, true), nil},
+		rep("replica-1", 1, "B12", 4, menuR),
+		rep("replica-1/xz", 1, "B12", 4, menuR, "xz"),
+		rep("replica-1/z", 1, "B12", 4, menuR, "z"),
+		rep("replica-1/r+z", 1, "B12", 3, menuR, "r", "z"),
+		rep("replica-2", 2, "A", 3, menuR),
+		rep("replica-2/xz", 2, "A", 2, menuR, "xz"),
+		rep("replica-2/z", 2, "A6", 2, menuR, "z"),
+		rep("replica-2u/z", 2, "A", 3, menuU, "z"),
+		rep("replica-2/r+z", 2, "A6", 1, menuR, "r", "z"),
+		rep("replica-3", 3, "A", 1, menuR),
+		rep("replica-3/z", 3, "A", 1, menuR, "z"),
 	}
 }
 
@@ -210,7 +238,7 @@ func gen(r *vlib.R) iter.Seq[Case] {
 			}
 			r.Set("block_"+b.name, fmt.Sprintf("%d stores x %d scripted streams each = %d cases x %d configurations", b.k, len(list), n, len(configSets[b.cs])))
 			for idx := range vlib.Tuples(b.k, len(list)) {
-				c := Case{WRL: b.wrl, CS: b.cs}
+				c := Case{WRL: b.wrl, RL: b.rl, CS: b.cs}
 				for s, li := range idx {
 					sp := list[li]
 					// give placeholders a chunk id unique to (store, entry)
@@ -241,16 +269,54 @@ type expSeries struct {
 	chunks map[string]bool // identities
 }
 
-// reference: label set (replica label removed when the request asks for it) -> distinct chunks sent.
+// replicaNames are the label names the request asks to be removed.
+func (c Case) replicaNames() []string {
+	if !c.WRL {
+		return nil
+	}
+	if len(c.RL) == 0 {
+		return []string{ReplicaLabel}
+	}
+	return c.RL
+}
+
+// finalLset is the label set a series message must appear under in the response: what the store sent minus the
+// replica labels of the request.
+func finalLset(c Case, st StoreSpec, e Entry) labels.Labels {
+	return labels.NewBuilder(lsetN(e.L, e.R, st.RL)).Del(c.replicaNames()...).Labels()
+}
+
+// resortNeeded reports whether some store that cannot strip the replica labels sends a stream that is no longer
+// sorted once they are removed, and whether that happens although all its series carry the same replica values.
+func resortNeeded(c Case) (needed, constant bool) {
+	if !c.WRL {
+		return false, false
+	}
+	for _, st := range c.Stores {
+		if !st.NoWRL {
+			continue
+		}
+		unsorted, same := false, true
+		for i := 1; i < len(st.E); i++ {
+			if labels.Compare(finalLset(c, st, st.E[i-1]), finalLset(c, st, st.E[i])) > 0 {
+				unsorted = true
+			}
+			if st.E[i].R != st.E[0].R {
+				same = false
+			}
+		}
+		needed = needed || unsorted
+		constant = constant || (unsorted && same)
+	}
+	return needed, constant
+}
+
+// reference: label set (replica labels removed when the request asks for it) -> distinct chunks sent.
 func reference(c Case) []*expSeries {
 	m := map[string]*expSeries{}
 	for _, st := range c.Stores {
 		for _, e := range st.E {
-			r := e.R
-			if c.WRL {
-				r = 0
-			}
-			ls := lset(e.L, r)
+			ls := finalLset(c, st, e)
 			k := ls.String()
 			if m[k] == nil {
 				m[k] = &expSeries{lset: ls, chunks: map[string]bool{}}
@@ -287,9 +353,7 @@ func runProxy(c Case, cfg Config) (*collectServer, error) {
 		Matchers:          []storepb.LabelMatcher{{Type: storepb.LabelMatcher_RE, Name: "x", Value: ".+"}},
 		ResponseBatchSize: int64(cfg.Batch),
 	}
-	if c.WRL {
-		req.WithoutReplicaLabels = []string{ReplicaLabel}
-	}
+	req.WithoutReplicaLabels = c.replicaNames()
 	srv := &collectServer{ctx: context.Background()}
 	err := p.Series(req, srv)
 	return srv, err
@@ -299,7 +363,7 @@ func TestCheck(t *testing.T) {
 	r := vlib.New(t, "C03")
 	defer r.Finish()
 	r.Rule("blocks (sizes in coverage.block_*): content-k = k stores x label-sorted streams x chunk-list menu per entry; framing-k = k stores x streams of unique chunks x every cut into " +
-		"Series/Batch frames; replica-k = request without replica label r, k stores that either strip r themselves or cannot (proxy re-sorts). Each case is run under every configuration of its " +
+		"Series/Batch frames; replica-k[/names] = request without the replica label(s) (default r; xz, z, r+z: the name sorts before / between / after the other label names x, y), k stores that either strip them themselves or cannot and send every series with each replica label in {absent,1,2} (proxy strips and re-sorts; coverage.cases_resort_needed* count the cases in which that store's stream is unsorted after stripping, in total and with one constant replica value on all its series). Each case is run under every configuration of its " +
 		"set (eager | lazy buf 1..3) x (ResponseBatchSize 0..3). Non-trivial = distinct case in which some output label set is sent in >= 2 entries (split across frames or duplicated across stores), " +
 		"i.e. the merge really has to join something")
 	r.Assume("stores obey the StoreAPI contract: label-sorted streams, all data of a series in consecutive messages; stores that support WithoutReplicaLabels send already stripped and re-sorted series",
@@ -319,7 +383,13 @@ func TestCheck(t *testing.T) {
 		}
 		if entries > len(ref) {
 			b, _ := json.Marshal(c.Stores)
-			r.Nontrivial(fmt.Sprint(c.WRL, string(b)))
+			r.Nontrivial(fmt.Sprint(c.WRL, c.RL, string(b)))
+		}
+		if resort, constant := resortNeeded(c); resort {
+			r.Add("cases_resort_needed", 1)
+			if constant {
+				r.Add("cases_resort_needed_with_constant_replica_values", 1)
+			}
 		}
 		for _, cfg := range cfgs {
 			// Inside a synctest bubble a deadlock of the proxy's goroutines (every goroutine durably blocked, no
